@@ -93,7 +93,7 @@ def cases(run: lib.Run, scale: int = 1):
 
 def run_cases(run: lib.Run, audit: dict, scale: int = 1):
     consts = audit["facts"]["consts"]
-    flav = ["sync", "async", "sync-in-loop", "sync-collab-async", "async-collab-async"]
+    flav = ["sync", "async", "sync-in-loop", "sync-collab-async", "async-collab-async", "sync-collab-awaitable", "async-collab-awaitable"]
     batch, cmds = [], []
     for i, (pol, req, cfg) in enumerate(cases(run, scale)):
         out, calls = run_one(pol, req, cfg, flav[i % len(flav)])
@@ -166,7 +166,7 @@ def check_isolation(run: lib.Run):
 def check(run: lib.Run, audit: dict) -> int:
     run.rule = ("exhaustive: ordered pairs of 14 rel-condition templates (short/extended form, literal and attribute overrides with/without ':', ctx "
                 "merge, repeated and reordered-ctx lookups, and/or/not) × 3 algorithms × 4 requests × 5 checker tables (all-true, all-false, raising, "
-                "mixed, absent), quick: pairs subsampled 1/3; random grammar policies / nested sets with rel everywhere; 5 API flavours (sync/async "
+                "mixed, absent), quick: pairs subsampled 1/3; random grammar policies / nested sets with rel everywhere; 7 API flavours (sync/async "
                 "checkers); isolation probes (data changed between decisions; 40 concurrent evaluate_async on two engines). non-trivial = the checker "
                 "was consulted")
     run.exhaustive = True
